@@ -104,7 +104,8 @@ func NewWorld(topo Topo, svc *Svc, sopts []goat.ServerOption, dopts []goat.DialO
 		w.mu.Unlock()
 		go func() {
 			defer w.wg.Done()
-			defer ccancel()
+			// (cctx is NOT cancelled when Serve returns: whether the handlers' contexts end with the connection is the
+			// library's business - C10 - and must not be done for it by the harness; Shutdown cancels the parent)
 			err := w.Server.Serve(cctx, rw)
 			w.mu.Lock()
 			w.ServeErrs[name] = err
